@@ -199,10 +199,72 @@ def accept_one(v, key, how, d, wrap):
 WRONG = {"null": None, "int": 7, "str": "seven", "bool": True, "list": ["x"], "dict": {"k": "v"}, "float": 1.5, "nested": [{"a": [None, {"b": []}]}], "emptystr": ""}
 
 
+def constraint_violations(g, key, base, t):
+    """for every inter-property constraint of the frozen model, the instances that break exactly it (derived from the constraint, not from the library)"""
+    descs = {d["name"]: d for d in t["properties"]}
+    order = [d["name"] for d in t["properties"]]
+    out = []
+
+    def val(n):
+        return g.value(dict(descs[n]), order.index(n), t["type"] or "")
+
+    def reorder(x):
+        for n in [n for n in order if n in x]:
+            x[n] = x.pop(n)
+        return x
+    for c in t["constraints"]:
+        k = c["k"]
+        x = copy.deepcopy(base)
+        if k in ("requires",) and c["a"] in descs and c["b"] in descs:
+            x[c["a"]] = x.get(c["a"], val(c["a"]))
+            x.pop(c["b"], None)
+            out.append(("constraint:%s_without_%s" % (c["a"], c["b"]), reorder(x)))
+            if descs[c["b"]]["kind"] == "boolean":          # ... and with the required member present but false where the text says "if and only if true"
+                y = copy.deepcopy(x)
+                y[c["b"]] = False
+                out.append(("constraint:%s_with_%s_false" % (c["a"], c["b"]), reorder(y)))
+        elif k == "iff_present":
+            for a, b in ((c["a"], c["b"]), (c["b"], c["a"])):
+                y = copy.deepcopy(base)
+                y[a] = y.get(a, val(a))
+                y.pop(b, None)
+                out.append(("constraint:%s_without_%s" % (a, b), reorder(y)))
+        elif k == "mutex":
+            for n in c["of"]:
+                if n in descs and n not in x:
+                    x[n] = val(n)
+            out.append(("constraint:all_of_mutually_exclusive:%s" % c["of"][0], reorder(x)))
+        elif k == "at_least_one":
+            for n in c["of"]:
+                x.pop(n, None)
+            out.append(("constraint:none_of:%s" % c["of"][0], x))
+            for n in c["of"]:                                # the constraint is about presence: a false / zero / empty member satisfies it
+                if n in descs and descs[n]["kind"] in ("boolean", "integer", "string") and "fixed" not in descs[n]:
+                    y = copy.deepcopy(x)
+                    y[n] = {"boolean": False, "integer": 0, "string": ""}[descs[n]["kind"]]
+                    out.append(("satisfied_by_falsy:%s" % n, reorder(y)))
+        elif k in ("if_true_forbids", "if_false_forbids") and c["a"] in descs and c["b"] in descs:
+            x[c["a"]] = (k == "if_true_forbids")
+            x[c["b"]] = x.get(c["b"], val(c["b"]))
+            out.append(("constraint:%s_%s_with_%s" % (c["a"], x[c["a"]], c["b"]), reorder(x)))
+        elif k == "if_true" and c["a"] in descs:
+            x[c["a"]] = True
+            x.pop(c["b"], None)
+            out.append(("constraint:%s_true_without_%s" % (c["a"], c["b"]), reorder(x)))
+        elif k in ("le", "lt") and c["a"] in descs and c["b"] in descs:
+            x[c["a"]], x[c["b"]] = "2021-01-01T00:00:01.000Z", "2021-01-01T00:00:00.000Z"
+            out.append(("constraint:%s_after_%s" % (c["a"], c["b"]), reorder(x)))
+            if k == "lt":
+                y = copy.deepcopy(x)
+                y[c["b"]] = y[c["a"]]
+                out.append(("constraint:%s_equal_%s" % (c["a"], c["b"]), reorder(y)))
+    return out
+
+
 def corruptions(g, key, base, rng, quick):
     """(name, corrupted dict) single-point corruptions derived from the frozen model"""
     t = g.types[key]
-    out = []
+    out = constraint_violations(g, key, base, t)
     for d in t["properties"]:
         n = d["name"]
         if (n in base or d["kind"] == "objectreference" or (d["kind"] == "list" and d["contained"]["kind"] == "objectreference")) and (d["kind"] in ("reference", "objectreference") or (d["kind"] == "list" and d["contained"]["kind"] in ("reference", "objectreference"))):
@@ -330,8 +392,15 @@ def corruptions(g, key, base, rng, quick):
     return out
 
 
-def emit_one(v, key, how, d, entry):
+def emit_one(v, key, how, d, entry, prime=False):
     line = {"kind": "emit", "v": v, "key": key, "ctx": how, "entry": entry, "strict": True, "ok": False, "family": True, "exc": "none", "doc": {"key": key, "props": []}, "input": d}
+    if prime:
+        # the same content goes through a permissive parse first (as an ingest pipeline does): what the library learns there must not relax a later strict call
+        try:
+            parse(d, v, strict=False, observable=is_obs20(key, v))
+        except Exception:  # noqa
+            pass
+        line["ctx"] = how + "(after a permissive parse of the same content)"
     try:
         if entry == "parse":
             obj = parse(d, v, observable=is_obs20(key, v))
@@ -377,7 +446,7 @@ def emit_lines(chk, quick, junk=True):
                 lines.append(emit_one(v, key, "valid_base", base, "parse"))
                 cs = corruptions(g, key, base, rng, quick)
                 if quick:
-                    always = [c for c in cs if ":ref_object" in c[0] or ":ref_text_braces" in c[0]]
+                    always = [c for c in cs if ":ref_object" in c[0] or ":ref_text_braces" in c[0] or c[0].startswith(("constraint:", "satisfied_by_falsy:"))]
                     cs = rng.sample(cs, min(len(cs), 28)) + always
                 for how, d in cs:
                     entry = rng.choice(["parse", "parse", "constructor", "parse_dict"]) if quick else None
@@ -385,7 +454,7 @@ def emit_lines(chk, quick, junk=True):
                     if is_obs20(key, v) and (not quick or rng.random() < 0.5 or ":ref_" in how):
                         ens = ens + ["container_member"]
                     for en in ens:
-                        ln = emit_one(v, key, how, d, en)
+                        ln = emit_one(v, key, how, d, en, prime=(":ref_" in how or rng.random() < 0.35))
                         if ln is not None:
                             lines.append(ln)
         # the four TLP marking definitions the specifications fix (identifier, creation time, level), and near misses of their level
@@ -806,6 +875,21 @@ def strip_like(full, val):
 
 
 # ------------------------------------------------------------------------------------------------ C04: custom
+def hash_dict_paths(x, prefix=()):
+    """paths (below x) of dictionaries stored under a member called hashes / file_header_hashes"""
+    out = []
+    if isinstance(x, dict):
+        for k, v in x.items():
+            if k in ("hashes", "file_header_hashes") and isinstance(v, dict) and v:
+                out.append(prefix + (k,))
+            else:
+                out += hash_dict_paths(v, prefix + (k,))
+    elif isinstance(x, list):
+        for i, v in enumerate(x):
+            out += hash_dict_paths(v, prefix + (i,))
+    return out
+
+
 def injections(g, key, base, rng):
     """(place, content with custom material injected) derived from the frozen model"""
     t = g.types[key]
@@ -830,6 +914,20 @@ def injections(g, key, base, rng):
                 x = copy.deepcopy(base)
                 x[n][hv[0]] = hv[1]
                 out.append(("hash:%s:%s" % (n, nm), x))
+                x = copy.deepcopy(base)            # ... and before the specification's algorithms instead of after them
+                x[n] = dict({hv[0]: hv[1]}, **x[n])
+                out.append(("hash:%s:%s:first" % (n, nm), x))
+        if d["kind"] in ("extensions", "embedded", "embeddedobject", "list"):
+            # hash dictionaries anywhere below this property (alternate data streams, PE sections, external references ...): a non-specification algorithm first / last
+            for path in hash_dict_paths(base[n]):
+                for pos in ("first", "last"):
+                    x = copy.deepcopy(base)
+                    h = x[n]
+                    for st in path[:-1]:
+                        h = h[st]
+                    hv = ("TLSH", "0" * 70) if g.v == "2.0" else ("SHA-224", "0" * 56)
+                    h[path[-1]] = dict({hv[0]: hv[1]}, **h[path[-1]]) if pos == "first" else dict(h[path[-1]], **{hv[0]: hv[1]})
+                    out.append(("nested_hash:%s.%s:%s" % (n, ".".join(map(str, path)), pos), x))
         if d["kind"] == "extensions":
             x = copy.deepcopy(base)
             first = sorted(x[n])[0]
@@ -904,6 +1002,21 @@ def custom_lines(chk, quick):
         for mode in ("strict", "permissive"):
             lines.append(custom_one(v, "objects:bundle", "unregistered_type_in_bundle", b, mode, False))
         if v == "2.1":
+            # two registered toplevel-property extensions: after an object that legitimately carries both, an object carrying one of them plus a top-level member
+            # that belongs to the other is as custom as it was before (what the library learned from the first object must not stay behind)
+            custom_types()
+            A, B = "extension-definition--aaaaaaaa-1111-4111-8111-111111111111", "extension-definition--bbbbbbbb-1111-4111-8111-111111111111"
+            tl = {"extension_type": "toplevel-property-extension"}
+            ident = g.instance("objects:identity", "min")
+            both = dict(ident, extensions={A: dict(tl), B: dict(tl)}, rank=1, weight=2)
+            only_a_plus_b = dict(ident, extensions={A: dict(tl)}, rank=1, weight=2)
+            only_b_plus_a = dict(ident, extensions={B: dict(tl)}, rank=1, weight=2)
+            for rnd in range(2):
+                for first, second in ((A, B), (B, A)):
+                    lines.append(custom_one(v, "objects:identity", "both_toplevel_extensions(control)", dict(both, extensions={first: dict(tl), second: dict(tl)}), "permissive", False))
+                    for place, d in (("toplevel_member_of_absent_extension:B", only_a_plus_b), ("toplevel_member_of_absent_extension:A", only_b_plus_a)):
+                        for mode in ("strict", "permissive"):
+                            lines.append(custom_one(v, "objects:identity", place + ":after_object_with_both", d, mode, False))
             # an unregistered type carrying an extension-definition extension: only an extension that defines a new object type (new-sdo / new-sco / new-sro) is documented to
             # let the dictionary through; every other extension type leaves it an unregistered type
             for et in ("property-extension", "toplevel-property-extension", "", None, "new-thing"):
